@@ -36,19 +36,21 @@ StrDefault(X, A, n) ==
   LET S == X.s[n] IN
   IF S.type = "bool" THEN
     IF S.ch # "" THEN "n"
-    ELSE LET di == FirstTrue(X, A, S.defaults)
-             dv == IF di = 0 THEN 0 ELSE EvalE(X, A, S.defaults[di].v)
+    ELSE LET ds == DefaultsOf(X, A, n)
+             di == FirstTrue(X, A, ds)
+             dv == IF di = 0 THEN 0 ELSE EvalE(X, A, ds[di].v)
          IN IF dv = 2 \/ RevOn(X, A, S.selects) # <<>> \/ RevOn(X, A, S.implies) # <<>> THEN "y" ELSE "n"
-  ELSE LET di == FirstTrue(X, A, S.defaults)
+  ELSE LET ds == DefaultsOf(X, A, n)
+           di == FirstTrue(X, A, ds)
            ws == IF DirectDep(X, A, n) = 2 THEN RevOn(X, A, S.wsets) ELSE <<>>
            wv == IF ws = <<>> THEN ""
                  ELSE IF S.type \in {"int", "hex"} THEN ws[1].e.v[2] ELSE AtomStr(X, A, ws[1].e.v)
        IN IF ws # <<>> /\ (S.type = "string" \/ wv # "") THEN wv   \* an enabled `set default` is what it falls back to
-          ELSE IF di = 0 THEN "" ELSE AtomStr(X, A, S.defaults[di].v)
+          ELSE IF di = 0 THEN "" ELSE AtomStr(X, A, ds[di].v)
 
 \* the member a choice selects without looking at the user's pick
 SelFromDefaults(X, A, c) ==
-  LET ds == X.c[c].defaults
+  LET ds == ChDefaultsOf(X, A, c)
       ok == {i \in 1..Len(ds) : EvalE(X, A, ds[i].c) = 2 /\ MemberVis(X, A, ds[i].m) = 2}
       ms == X.c[c].members
       vm == {i \in 1..Len(ms) : MemberVis(X, A, ms[i]) = 2}
@@ -144,6 +146,61 @@ RewriteLine(X, R, ln) ==
            isb == X.s[r.n].type = "bool"
        IN [n |-> r.n, v |-> r.v, d |-> FALSE, u |-> IF isb THEN r.v = "n" ELSE ln.u]
 Rewrite(X, R, F) == [k \in 1..Len(F) |-> RewriteLine(X, R, F[k])]
+
+----------------------------------------------------------------------------
+(* Loading under a defaults policy (C08).  Default-marked entries of       *)
+(* prompted options never become user values.  Each is compared, in        *)
+(* dependency order, with the value the tree gives the option; on a        *)
+(* mismatch the option is recorded, and under policy "sdkconfig" the       *)
+(* stored value is injected as the option's only default (if it is valid   *)
+(* for the type).  Policy "kconfig" leaves the tree's defaults alone.      *)
+(* Entries of promptless options are ignored.  For a choice without a user *)
+(* pick the visible default-marked member stored as y decides likewise.    *)
+DefaultMarked(X, R, F) ==   \* resolved default-marked lines of prompted, defined options
+  LET rs == [k \in 1..Len(F) |-> Resolve(X, R, F[k])]
+  IN SelectSeq(rs, LAMBDA r : r.ok /\ r.d /\ X.s[r.n].prompts # <<>>
+                               /\ (X.s[r.n].type = "bool" => r.v \in {"y", "n"}))
+StoredOf(dm, n) == dm[CHOOSE k \in 1..Len(dm) : dm[k].n = n /\ \A j \in 1..Len(dm) : dm[j].n = n => j <= k].v
+
+ResolveStep(X, ord, dm, policy, U, P, acc, o) ==
+  LET names == {dm[k].n : k \in 1..Len(dm)} IN
+  IF o[1] = "s" THEN
+    LET n == o[2] IN
+    IF n \notin names \/ X.s[n].ch # "" \/ U[n] # NoVal THEN acc
+    ELSE LET A == EvalI(X, ord, U, P, acc.I)
+             st == Norm(X.s[n].type, StoredOf(dm, n)) IN
+         IF A.core[n].vis = 0 \/ A.core[n].val = st THEN acc
+         ELSE [acc EXCEPT !.mism = @ \cup {n},
+                          !.I = IF policy = "sdkconfig" /\ ValidFor(X.s[n].type, StoredOf(dm, n))
+                                  THEN [@ EXCEPT !.s[n] = st] ELSE @]
+  ELSE
+    LET c == o[2]
+        ms == X.c[c].members
+        marked == {m \in names : X.s[m].ch = c} IN
+    IF marked = {} \/ P[c] # NoVal THEN acc
+    ELSE LET A == EvalI(X, ord, U, P, acc.I)
+             ys == SelectSeq(ms, LAMBDA m : m \in marked /\ StoredOf(dm, m) = "y" /\ MemberVis(X, A, m) = 2)
+             cur(m) == IF MemberVis(X, A, m) = 2 /\ SelOf(X, A, P, c) = m THEN "y" ELSE "n"
+             diff == {m \in marked : cur(m) # StoredOf(dm, m)}
+         IN IF A.mode[c] # 2 THEN acc
+            ELSE IF Len(ys) = 1 THEN
+                   (IF diff = {} THEN acc
+                    ELSE [acc EXCEPT !.mism = @ \cup {c},
+                                     !.I = IF policy = "sdkconfig" THEN [@ EXCEPT !.c[c] = ys[1]] ELSE @])
+            ELSE IF Len(ys) > 1 THEN
+                   [acc EXCEPT !.I = IF policy = "sdkconfig" THEN [@ EXCEPT !.c[c] = ys[Len(ys)]] ELSE @]
+            ELSE acc
+
+LoadP(X, ord, R, F, policy) ==   \* into a fresh session
+  LET base == Load(X, R, F, TRUE, NoUser(X).U, NoUser(X).P)
+      dm == DefaultMarked(X, R, F)
+      \* A.mode of a choice is only known once the choice has been evaluated: resolution of a
+      \* choice evaluates the whole configuration under the injections made so far
+      r == FoldLeft(LAMBDA acc, o : ResolveStep(X, ord, dm, policy, base.U, base.P, acc, o),
+                    [I |-> NoInj(X), mism |-> {}], ord)
+  IN [U |-> base.U, P |-> base.P, I |-> r.I, missing |-> base.missing, mism |-> r.mism]
+
+StripDefaults(F) == SelectSeq(F, LAMBDA ln : ~ln.d)
 
 ----------------------------------------------------------------------------
 (* One step of a session.  st = [U, P]; act is a record:                   *)
